@@ -381,16 +381,19 @@ func (fr *Frame) appendSlices(st *State, et types.Type, s, t Term) Term {
 	// general case: result backing array R with
 	//   R[i] = S[i+off_s]        for 0 <= i < len(s)
 	//   R[len(s)+j] = T[j+off_t] for 0 <= j < len(t)
+	// pattern-safe names (patterns must not contain ite); define-fun would be expanded, so use constants
+	s = r.constOf(st, "aps", s)
+	t = r.constOf(st, "apt", t)
 	ref := fr.allocFresh(st, et, Term{})
 	R := r.havoc("app", as)
 	ls, lt := app("Int", "sl_len", s), app("Int", "sl_len", t)
-	S := sel(A, app("Int", "sl_arr", s))
-	T := sel(A, app("Int", "sl_arr", t))
+	S := r.constOf(st, "apS", sel(A, app("Int", "sl_arr", s)))
+	T := r.constOf(st, "apT", sel(A, app("Int", "sl_arr", t)))
 	i := Term{"i_", "Int"}
-	r.assume(st, Term{fmt.Sprintf("(forall ((i_ Int)) (! (=> (and (<= 0 i_) (< i_ %s)) (= (select %s i_) (select %s (+ i_ (sl_off %s))))) :pattern ((select %s i_))))", ls.S, R.S, S.S, s.S, R.S), "Bool"})
-	r.assume(st, Term{fmt.Sprintf("(forall ((i_ Int)) (! (=> (and (<= 0 i_) (< i_ %s)) (= (select %s (+ %s i_)) (select %s (+ i_ (sl_off %s))))) :pattern ((select %s (+ %s i_)))))", lt.S, R.S, ls.S, T.S, t.S, R.S, ls.S), "Bool"})
+	r.assume(st, Term{fmt.Sprintf("(forall ((i_ Int)) (! (=> (and (<= 0 i_) (< i_ %s)) (= (select %s (sl_ix 0 i_)) (select %s (sl_ix (sl_off %s) i_)))) :pattern ((select %s (sl_ix 0 i_)))))", ls.S, R.S, S.S, s.S, R.S), "Bool"})
+	r.assume(st, Term{fmt.Sprintf("(forall ((i_ Int)) (! (=> (and (<= 0 i_) (< i_ %s)) (= (select %s (sl_ix 0 (+ %s i_))) (select %s (sl_ix (sl_off %s) i_)))) :pattern ((select %s (sl_ix (sl_off %s) i_)))))", lt.S, R.S, ls.S, T.S, t.S, T.S, t.S), "Bool"})
 	// also a directly usable instance for the common single-element append
-	r.assume(st, implies(eq(lt, intLit(1)), eq(sel(R, ls), sel(T, app("Int", "sl_off", t)))))
+	r.assume(st, implies(eq(lt, intLit(1)), eq(sel(R, app("Int", "sl_ix", intLit(0), ls)), sel(T, app("Int", "sl_ix", app("Int", "sl_off", t), intLit(0))))))
 	_ = i
 	r.heapSet(st, key, store(A, ref, R))
 	nl := app("Int", "+", ls, lt)
